@@ -186,7 +186,7 @@ def _md(ck, p, byk):
         ck.decide(rule, "Markdown::parse:english-call", not bad, f.span, "the English parser is reached only in states (event, under CodeBlock) = %s" % sorted({(e, c) for _, e, c in seen["parse"]}, key=str))
     bad_tok = sorted({(ln, e, k) for ln, e, cbk, k in seen["tokens"] if (e in UNLINTABLE_EVENTS or cbk is True) and k != "Unlintable"})
     n_unl = len({ln for ln, e, cbk, k in seen["tokens"] if e in UNLINTABLE_EVENTS or cbk is True})
-    ck.floor(rule, "token constructions in non-prose Markdown arms", n_unl, 2)
+    ck.floor(rule, "token constructions in non-prose Markdown arms", n_unl, 1)
     ck.decide(rule, "Markdown::parse:non-prose-unlintable", not bad_tok, f.span, "tokens built for Code/Math/Html events and code-block text are all Unlintable%s" % ("" if not bad_tok else "; exceptions (line, event, kind): %s" % bad_tok))
     # units
     _md_units(ck, p, f)
@@ -270,7 +270,7 @@ def _md_units(ck, p, f):
                 pass
             sinks.append((t, t["args"][1], "source[..]"))
     bad = [(what, t["ln"]) for t, a, what in sinks if byte_tainted(a)]
-    ck.floor(rule, "char-indexed sinks in Markdown::parse", len(sinks), 8)
+    ck.floor(rule, "char-indexed sinks in Markdown::parse", len(sinks), 4)
     if bad:
         ck.refuted(rule, "Markdown::parse:units", f.loc(bad[0][1]), "a char-indexed sink (%s) receives a value derived from a pulldown-cmark byte offset without chars().count(): every token after a multi-byte character would be displaced" % bad[0][0])
     else:
@@ -381,7 +381,7 @@ def _typst(ck, p):
                     fields = arg_fields(pv, a)
                     if "byte" in fields:
                         bad.append((keyname(p, f), t["ln"]))
-    ck.floor(rule, "span constructions / shifts in harper-typst", n, 2)
+    ck.floor(rule, "span constructions / shifts in harper-typst", n, 1)
     if bad:
         ck.refuted(rule, "typst:units:%s" % bad[0][0], "", "a Span in harper-typst is built from OffsetCursor.byte (%s)" % bad[:2])
     else:
@@ -601,7 +601,7 @@ def _byte_lengths(ck, p):
         for bi, t in f.calls():
             if BYTE_SRC.search(norm(inst_of(t) or def_of(t) or "")):
                 n_src += 1
-    ck.floor(rule, "front-end functions with char-indexed sinks", n_fns, 15)
+    ck.floor(rule, "front-end functions with char-indexed sinks", n_fns, 8)
     ck.extra["byte_length_sinks"] = n_sinks
     ck.extra["byte_length_sources_seen"] = n_src
     seen_k = set()
@@ -653,7 +653,7 @@ def _typst_verbatim(ck, p):
                 elif o[0] == "agg":
                     for ops in o[3]:
                         stack += list(ops)
-    ck.floor(rule, "texts handed to the English lexer by the Typst translator", n, 2)
+    ck.floor(rule, "texts handed to the English lexer by the Typst translator", n, 1)
     if bad:
         fn, where, recv = bad[0]
         ck.refuted(rule, "typst-verbatim:%s" % fn, where, "the English lexer receives the *value* of a %s (escapes resolved) but its tokens are placed as if it were the source text: after the first escape every token of the literal sits left of its characters" % recv)
